@@ -41,8 +41,10 @@ C5EmitOK(c, off, len, t, kf7, reno) ==
   /\ (c.needRetx >= 0 => off = c.needRetx)                            \* after the third duplicate ACK the head goes out first
   /\ IsTimeoutRetx(c, off) => (t - c.lastTx[off] >= 200000            \* never sooner than 200 ms after its previous transmission
                                \/ (kf7 /\ c.recover >= 0))            \* known finding F7: timeout shortly after a fast retransmit
-  /\ c.rtoPrev >= 0 => /\ off = c.una                               \* exactly one segment (the earliest unacknowledged one) per timeout while the peer stays silent
-                        /\ IsTimeoutRetx(c, off) => BackoffOK(c, t)    \* and the timeout at least doubles between successive retransmissions
+  \* while the peer stays silent: exactly one segment (the earliest unacknowledged one) per timeout ...
+  /\ (c.rtoPrev >= 0 => off = c.una)
+  \* ... and the timeout at least doubles between successive retransmissions
+  /\ ((c.rtoPrev >= 0 /\ IsTimeoutRetx(c, off)) => BackoffOK(c, t))
   /\ (~c.ackedData /\ ~IsRetx(c, off)) => c.dataSegs + 1 <= 10         \* at most 10 segments before the first ACK
   /\ reno => InFlight(c, c.sent \cup {<<off, off + len>>}) <= 10 + c.segsAcked + c.acks
 
